@@ -39,7 +39,9 @@ ASSUMPTIONS = [
     "strings (or a falsy value), top-file lists contain strings; anything else is reported by the model as UNSUPPORTED "
     "and is not generated",
     "the preceding data of a call is determined by its version string (caller contract of DataSource.get_data)",
-    "recursion depth of generated trees stays far below Python's recursion limit (model fuel %d)" % FUEL,
+    "recursion depth of generated trees stays far below Python's recursion limit (model fuel %d); above the bound of "
+    "Vinegar.C11.expand_fuel_adequate the model's result does not depend on the fuel, while the real code raises "
+    "RecursionError on trees whose aliased names (x...y.z) make the include chain longer than about 490 files" % FUEL,
 ]
 
 
@@ -251,11 +253,13 @@ def gen_tree(rng, cfg, n_files=None, mode=None, malformed=True):
 
 def gen_c11_case(rng, style=None):
     cfg = gen_cfg(rng)
-    style = style or rng.choice(["dag", "dag", "free", "deep", "diamond"])
+    style = style or rng.choice(["dag", "dag", "free", "deep", "diamond", "alias"])
     if style == "deep":
         tree = gen_chain_tree(rng, cfg)
     elif style == "diamond":
         tree = gen_diamond_tree(rng, cfg)
+    elif style == "alias":
+        tree = gen_alias_tree(rng, cfg)
     else:
         tree = gen_tree(rng, cfg, mode=style)
     case = {"cfg": cfg, "id": rng.choice(IDS), "pdata": copy.deepcopy(rng.choice(PDATAS))}
@@ -299,6 +303,92 @@ def gen_chain_tree(rng, cfg):
         files[m] = {"blocks": [{"cond": None, "items": items}]}
     first = mods[0][0].split("/")
     top = {"blocks": [{"cond": None, "items": [["*", [".".join(first[:-1] if mods[0][1] else first)]]]}]}
+    return {"top": top, "files": files, "dirs": []}
+
+
+def gen_alias_tree(rng, cfg):
+    """several NAMES of one file: empty segments (`a..b`, `a.`, leading dots in a top list) are
+    dropped when the path is built but kept in the name, and the cycle check compares names. A file
+    can therefore be expanded inside itself (under a new name each time) without a cycle error;
+    the depth grows with the number of dots, not with the number of files (Theorems/C11.lean,
+    `linear_bound_fails`). All families stay far below the model's fuel."""
+    def spec(items):
+        return {"blocks": [{"cond": None, "items": items}]}
+
+    def body(tag, inc, n=2):
+        items = [[k, gen_value(rng, k) if rng.random() < 0.5 else tag] for k in rng.sample(["k", "j", "m", "x", "y"], n)]
+        if inc is not None:
+            items.insert(rng.randint(0, len(items)), ["include", inc])
+        return spec(items)
+
+    fam = rng.choice(["countdown", "countdown-dir", "self", "self", "counter", "counter", "trailing", "trailing",
+                      "init-twice", "mixed", "mixed"])
+    files = {}
+    if fam == "countdown":
+        # a.yaml includes '..a'; listed as '.....a': k+1 nested expansions, then above the root
+        k = rng.randint(0, 7)
+        files["a"] = body("a", ["..a"] + (["b"] if rng.random() < 0.3 else []))
+        if rng.random() < 0.5:
+            files["b"] = body("b", None)
+        names = ["." * k + "a"]
+    elif fam == "countdown-dir":
+        # x/a.yaml includes '..a'; listed as 'x....a': ends at the root file a.yaml (if present)
+        k = rng.randint(1, 6)
+        files["x/a"] = body("xa", ["..a"])
+        if rng.random() < 0.85:
+            files["a"] = body("a", rng.choice([None, None, None, ["x.a"], ["x..a"]]))
+        names = ["x" + "." * k + "a"]
+    elif fam == "self":
+        # x/y.yaml includes '..y' (documented meaning: y.yaml one directory up); under the name
+        # x..y that is x/y.yaml itself, once more, without a cycle error
+        k = rng.randint(1, 4)
+        files["x/y"] = body("xy", ["..y"])
+        if rng.random() < 0.9:
+            files["y"] = body("y", None)
+        names = [rng.choice(["x" + "." * (k + 1) + "y", "x.y", "x.y" + "." * k])]
+    elif fam == "counter":
+        # two files, depth ~ (a+1)*(B+2): x/y/z.yaml counts the dots before z down, x/z.yaml
+        # drops one dot before y and reloads the dots before z
+        a, bb = rng.randint(0, 3), rng.randint(0, 3)
+        files["x/y/z"] = body("xyz", ["..z"])
+        files["x/z"] = body("xz", ["..y" + "." * (bb + 1) + "z"])
+        if rng.random() < 0.85:
+            files["y/z"] = body("yz", None)
+        names = ["x" + "." * (a + 1) + "y.z"]
+    elif fam == "trailing":
+        # 'a.' is a.yaml with the place ['a', '']: '.b' then means a/b.yaml, not b.yaml
+        files["a"] = body("a", [rng.choice([".b", ".b.", "a.", "..b"])])
+        for m in rng.sample(["b", "a/b", "a/init"], rng.randint(1, 3)):
+            files[m] = body(m, None)
+        names = [rng.choice(["a.", "a..", "a", ".a."])]
+    elif fam == "init-twice":
+        # documented syntax only: a/init.yaml is reached as 'a' and then as 'a.init'
+        files["a/init"] = body("ai", [rng.choice([".init", "a.init", "a"])] + (["b"] if rng.random() < 0.4 else []))
+        files["b"] = body("b", None)
+        names = [rng.choice(["a", "a.init", "a..init", "a."])]
+    else:
+        # an ordinary tree whose names get extra dots
+        tree = gen_tree(rng, cfg, n_files=rng.randint(2, 4), mode="dag", malformed=False)
+
+        def dot(n):
+            if not isinstance(n, str) or not n or rng.random() < 0.4:
+                return n
+            r = rng.random()
+            if r < 0.4 and "." in n.strip("."):
+                i = n.rindex(".")
+                return n[:i] + "." * rng.randint(1, 2) + n[i:]
+            if r < 0.7:
+                return n + "." * rng.randint(1, 2)
+            return n
+        for sp in list(tree["files"].values()) + [tree["top"]]:
+            if sp and "blocks" in sp:
+                for b in sp["blocks"]:
+                    for it in b["items"]:
+                        if isinstance(it[1], list) and (sp is tree["top"] or it[0] == "include"):
+                            it[1] = [dot(n) for n in it[1]]
+        return tree
+    extra = [n for n in (rng.choice(["b", "a.", "x.y", "zz"]),) if rng.random() < 0.1]
+    top = spec([["*", names + extra]])
     return {"top": top, "files": files, "dirs": []}
 
 
